@@ -8,6 +8,8 @@
 #include <eventpp/hetercallbacklist.h>
 #include <eventpp/hetereventdispatcher.h>
 #include <eventpp/hetereventqueue.h>
+#include <eventpp/utilities/counterremover.h>
+#include <eventpp/utilities/conditionalremover.h>
 #include <string>
 #include <new>
 
@@ -123,6 +125,50 @@ template <typename C> static Handle addCb(int how, const C & cb, const Handle & 
 #endif
 }
 static Handle handleOf(int h) { return (h >= 1 && h <= (int)H.size()) ? H[h - 1] : Handle(); }
+// CounterRemover / ConditionalRemover over the heterogeneous classes (C16): the helper is a temporary, gone right after the registration
+template <typename C> static Handle addCtr(int how, const C & cb, const Handle & before, int count)
+{
+#if W_KIND == 0
+	return how == 0 ? eventpp::counterRemover(*obj).append(cb, count) : how == 1 ? eventpp::counterRemover(*obj).prepend(cb, count)
+		: eventpp::counterRemover(*obj).insert(cb, before, count);
+#else
+	return how == 0 ? eventpp::counterRemover(*obj).appendListener(1, cb, count) : how == 1 ? eventpp::counterRemover(*obj).prependListener(1, cb, count)
+		: eventpp::counterRemover(*obj).insertListener(1, cb, before, count);
+#endif
+}
+static void addCounter(const char * e, int how, int shape, int beforeNo, int count)
+{
+	int id = (int)H.size() + 1;
+	Handle before = handleOf(beforeNo), h;
+	switch(shape) {
+	case 1: h = addCtr(how, K1(id), before, count); break;
+	case 2: h = addCtr(how, K2(id), before, count); break;
+	case 3: h = addCtr(how, K3(id), before, count); break;
+	case 4: h = addCtr(how, K4(id), before, count); break;
+	case 5: h = addCtr(how, K5(id), before, count); break;
+	case 6: h = addCtr(how, K6(id), before, count); break;
+	default: h = addCtr(how, K7(id), before, count); break;
+	}
+	H.push_back(h);
+	evx(e, beforeNo, shape, h.index + 1, id, count);
+}
+// the condition holds at its second evaluation; every evaluation is recorded
+struct CondSecond { int id; int asked; bool operator() () { evx("cq", 1, id, 1, 0, 0); return ++asked == 2; } };
+static void addConditional(const char * e, int how, int beforeNo)
+{
+	int id = (int)H.size() + 1;
+	Handle before = handleOf(beforeNo), h;
+	CondSecond cond = { id, 0 };
+#if W_KIND == 0
+	h = how == 0 ? eventpp::conditionalRemover(*obj).append(K1(id), cond) : how == 1 ? eventpp::conditionalRemover(*obj).prepend(K1(id), cond)
+		: eventpp::conditionalRemover(*obj).insert(K1(id), before, cond);
+#else
+	h = how == 0 ? eventpp::conditionalRemover(*obj).appendListener(1, K1(id), cond) : how == 1 ? eventpp::conditionalRemover(*obj).prependListener(1, K1(id), cond)
+		: eventpp::conditionalRemover(*obj).insertListener(1, K1(id), before, cond);
+#endif
+	H.push_back(h);
+	evx(e, beforeNo, 1, h.index + 1, id, 0);
+}
 static void add(const char * e, int how, int shape, int beforeNo)
 {
 	int id = (int)H.size() + 1;
@@ -207,6 +253,12 @@ static void step(const Op & op)
 	if(k == "al") add("al", 0, op.a, 0);
 	else if(k == "pl") add("pl", 1, op.a, 0);
 	else if(k == "il") add("il", 2, op.a, op.b);
+	else if(k == "ac") addCounter("ac", 0, op.a, 0, op.b);
+	else if(k == "pc") addCounter("pc", 1, op.a, 0, op.b);
+	else if(k == "ic") addCounter("ic", 2, op.a % 10, op.a / 10, op.b);
+	else if(k == "ak") addConditional("ak", 0, 0);
+	else if(k == "qk") addConditional("qk", 1, 0);
+	else if(k == "ik") addConditional("ik", 2, op.b);
 	else if(k == "rl") { bool r = removeHandle(op.a); evx("rl", 0, op.a, 0, r ? 1 : 0, 0); }
 	else if(k == "iv") invoke(op.a);
 #if W_KIND == 2
